@@ -59,6 +59,8 @@ impl<T> ObservableState<T> {
         observed_version: &mut u64,
         cx: &Context<'_>,
     ) -> Poll<Option<()>> {
+        #[cfg(feature = "__verif_hooks")]
+        crate::verif::pause("poll_update:enter");
         let mut metadata = self.metadata.write().unwrap();
 
         if metadata.version == 0 {
@@ -67,6 +69,8 @@ impl<T> ObservableState<T> {
             *observed_version = metadata.version;
             Poll::Ready(Some(()))
         } else {
+            #[cfg(feature = "__verif_hooks")]
+            crate::verif::pause("poll_update:register");
             metadata.wakers.push(cx.waker().clone());
             Poll::Pending
         }
@@ -113,7 +117,11 @@ impl<T> ObservableState<T> {
 
     /// "Close" the state – indicate that no further updates will happen.
     pub(crate) fn close(&self) {
+        #[cfg(feature = "__verif_hooks")]
+        crate::verif::pause("close:enter");
         let mut metadata = self.metadata.write().unwrap();
+        #[cfg(feature = "__verif_hooks")]
+        crate::verif::pause("close:locked");
         metadata.version = 0;
         // Clear the backing buffer for the wakers, no new ones will be added.
         wake(mem::take(&mut metadata.wakers));
